@@ -226,3 +226,69 @@ pub fn neg_dispatch_explicit(a: &Algebra) -> Result<u8, String> {
         Algebra::Service => Err("not implemented: SERVICE".into()),
     }
 }
+
+// ---------------------------------------------------------------- R15.7 FIFO buffers of items
+pub struct Buffered {
+    pub buffer: std::collections::VecDeque<Result<u32, String>>,
+    pub stack: Vec<Result<u32, String>>,
+}
+impl Buffered {
+    pub fn neg_fifo_next(&mut self, incoming: &[u32]) -> Option<Result<u32, String>> {
+        for i in incoming {
+            self.buffer.push_back(fallible(*i));
+        }
+        self.buffer.pop_front()
+    }
+    /// last-in-first-out: items of one step come out reversed, a trailing error overtakes them
+    pub fn pos_lifo_next(&mut self, incoming: &[u32]) -> Option<Result<u32, String>> {
+        for i in incoming {
+            self.stack.push(fallible(*i));
+        }
+        self.stack.pop()
+    }
+}
+
+// ---------------------------------------------------------------- R3.4 a writer that refuses some inputs
+pub fn pos_refusing_writer<W: std::io::Write>(w: &mut W, tag: &str) -> std::io::Result<()> {
+    if !tag.bytes().all(|b| b.is_ascii_alphabetic()) {
+        return Err(std::io::Error::new(std::io::ErrorKind::InvalidInput, format!("tag '{tag}' refused")));
+    }
+    w.write_all(tag.as_bytes())
+}
+pub fn neg_rewrapping_writer<W: std::io::Write>(w: &mut W, tag: &str) -> std::io::Result<()> {
+    w.write_all(tag.as_bytes()).map_err(|e| std::io::Error::new(std::io::ErrorKind::Other, e))
+}
+
+// ---------------------------------------------------------------- R1.8 who may write the index sets
+pub struct TwoIndexes {
+    pub spo: std::collections::BTreeSet<[u32; 3]>,
+    pub pos: std::collections::BTreeSet<[u32; 3]>,
+}
+impl TwoIndexes {
+    /// a "bulk load" that fills one index first: the other is left behind if the loop stops early
+    pub fn pos_bulk_load(&mut self, items: &[[u32; 3]]) -> Result<usize, String> {
+        let mut n = 0;
+        for [s, p, o] in items {
+            fallible(*s)?;
+            if self.spo.insert([*s, *p, *o]) {
+                n += 1;
+            }
+        }
+        for [s, p, o] in items {
+            self.pos.insert([*p, *o, *s]);
+        }
+        Ok(n)
+    }
+    pub fn neg_read_only(&self, k: &[u32; 3]) -> bool {
+        self.spo.contains(k) && self.pos.len() == self.spo.len()
+    }
+}
+
+// ---------------------------------------------------------------- R7.7 shrinking a vector whose equality is coarser than identity
+pub struct BlindTerm(pub String);
+pub fn pos_dedup_blind(v: &mut Vec<BlindTerm>) {
+    v.dedup_by(|a, b| a.0.len() == b.0.len());
+}
+pub fn neg_sort_blind(v: &mut Vec<BlindTerm>) {
+    v.sort_by(|a, b| a.0.len().cmp(&b.0.len()));
+}
